@@ -233,8 +233,21 @@ fn sanitize(s: &str) -> String {
     s.chars().map(|c| if c.is_ascii_alphanumeric() || c == '-' || c == '_' { c } else { '_' }).collect()
 }
 
+/// Violations and evidence fields contributed from outside a property module (the environment
+/// probe): merged by `finish`.
+pub static EXTRA: std::sync::Mutex<(Vec<Violation>, Vec<(String, Value)>)> = std::sync::Mutex::new((Vec::new(), Vec::new()));
+
 /// Print verdict lines, write replay files and the evidence file; returns the exit code.
-pub fn finish(ctx: &Ctx, acc: Acc, fin: Finish) -> i32 {
+pub fn finish(ctx: &Ctx, mut acc: Acc, mut fin: Finish) -> i32 {
+    {
+        let mut e = EXTRA.lock().unwrap();
+        for v in e.0.drain(..) {
+            acc.violate(v);
+        }
+        for (k, v) in e.1.drain(..) {
+            fin.extra.insert(k, v);
+        }
+    }
     let known = match load_known() {
         Ok(k) => k,
         Err(e) => {
